@@ -8,5 +8,5 @@ View == <<nextId, pend, acked, ackOk, ackCnt, failed, propQ, rlog, commit, hande
           [rdy EXCEPT !.r = Norm(@)], pcR, role, glog,
           [j \in 1..Len(chan) |-> [chan[j] EXCEPT !.r = Norm(@)]], pcA, [cur EXCEPT !.r = Norm(@)],
           applied, snapi, store, lastIdx, pcS, sIdx, sImg, latestSnap, released, nsnaps, purgeCk,
-          walEnts, walCommit, walSnaps, walLow, snapFiles, ckpt, up, crashes, restarts, failedRestart>>
+          walEnts, walCommit, walSnaps, walLow, snapFiles, ckpt, torn, instApplied, ninst, up, crashes, restarts, failedRestart>>
 =============================================================================
